@@ -15,7 +15,7 @@
    hold for whatever lines they yield); list.Dynamic is modelled in its initial scroll state
    only (scrolling is C19); styles and the cursor part of render are not modelled. *)
 From Vx Require Import base.Prelude model.Surface model.Widgets
-  proofs.SurfaceProofs proofs.WidgetsProofs proofs.RenderProofs.
+  proofs.SurfaceProofs proofs.WidgetsProofs proofs.RenderProofs proofs.PaintProofs.
 From Coq Require Import Permutation Sorted.
 
 (* ================================================================== surface addressing *)
@@ -104,19 +104,7 @@ Theorem C14_no_panic_leaves : forall rich soft lines chars maxw maxh,
   draw (WText rich soft lines) maxw maxh <> DPanic /\ draw (WField chars) maxw maxh <> DPanic /\
   (maxw < 65535 -> maxh < 65535 ->
    draw (WCenter (WText rich soft lines)) maxw maxh <> DPanic /\ draw (WButton lines) maxw maxh <> DPanic).
-Proof.
-  intros rich soft lines chars maxw maxh Hw Hh.
-  pose proof (draw_contract_all (WText rich soft lines) maxw maxh Hw Hh) as H1.
-  pose proof (draw_contract_all (WField chars) maxw maxh Hw Hh) as H2.
-  pose proof (draw_contract_all (WCenter (WText rich soft lines)) maxw maxh Hw Hh) as H3.
-  pose proof (draw_contract_all (WButton lines) maxw maxh Hw Hh) as H4.
-  unfold draw_contract in *.
-  split; [intros E; rewrite E in H1; discriminate|].
-  split; [intros E; rewrite E in H2; discriminate|].
-  intros Hbw Hbh.
-  assert (Hu : (maxh =? 65535) || (maxw =? 65535) = false) by lia.
-  split; intros E; [rewrite E in H3 | rewrite E in H4]; cbn [contract_panic] in *; rewrite Hu in *; discriminate.
-Qed.
+Proof. exact no_panic_leaves. Qed.
 Print Assumptions C14_no_panic_leaves.
 
 (* Center with ANY child widget (an arbitrary function of the constraint) that honours the
@@ -243,6 +231,38 @@ Example C14_example_render :
   render_run (6, 2, Surf 3 1 [1; 2; 3] [(1, 0, 5, Surf 1 1 [9] []); (0, 0, 0, Surf 2 1 [7; 8] []); (2, 0, 1, Surf 4 1 [4; 5; 6; 6] [])])
   = (0, [[7; 9; 4; 5; 6; 6]; [0; 0; 0; 0; 0; 0]]).
 Proof. split; [apply tree_wf_b_sound; vm_compute; reflexivity | vm_compute; reflexivity]. Qed.
+
+(* ================================================================== layout + render composed *)
+
+(* What App.layout + Surface.render do for any tree of built-in widgets and any window size:
+   Draw with Max = window size, render the result into the root window of a cleared screen.
+   Unless a documented-unbounded panic occurs nothing panics, and every screen cell shows what
+   [shown] prescribes for the drawn tree (blank where the tree paints nothing). *)
+Theorem C14_layout_then_render : forall ws cols rows, 0 <= cols < 65536 -> 0 <= rows < 65536 ->
+  match draw ws cols rows with
+  | DPanic => contract_panic ws cols rows = true /\ paint_run (ws, cols, rows) = (1, [])
+  | DOk s =>
+      exists sc, paint_run (ws, cols, rows) = (0, sc_buf sc) /\ screen_wf sc /\
+        sc_cols sc = cols /\ sc_rows sc = rows /\
+        forall x y, 0 <= x < cols -> 0 <= y < rows ->
+          screen_get sc x y =
+            Some (match shown stable_perm s 0 0 x y with Some c => c | None => wblank end)
+  end.
+Proof. exact layout_then_render. Qed.
+Print Assumptions C14_layout_then_render.
+
+Theorem C14_paint_meets_spec : forall ws cols rows, 0 <= cols < 65536 -> 0 <= rows < 65536 ->
+  paint_ok ((ws, cols, rows), paint_run (ws, cols, rows)) = true.
+Proof. exact paint_run_ok. Qed.
+Print Assumptions C14_paint_meets_spec.
+
+(* non-vacuity: a button "OK" (ids 4,5) on a 6x3 screen: the label is centred on the middle row *)
+Example C14_example_paint :
+  paint_run (WButton [[(4, 1); (5, 1)]], 6, 3) =
+    (0, [[(0,0); (0,0); (0,0); (0,0); (0,0); (0,0)];
+         [(0,0); (0,0); (4,1); (5,1); (0,0); (0,0)];
+         [(0,0); (0,0); (0,0); (0,0); (0,0); (0,0)]]).
+Proof. vm_compute; reflexivity. Qed.
 
 (* ================================================================== regression witnesses *)
 
